@@ -77,7 +77,7 @@ func genInput(rt *rapid.T) (string, bool) {
 	cfg.Off = map[string]bool{"retattr-align": true, "freeze-metadata": true}
 	m, _ := gen.Module(rt, cfg)
 	gen.SparseMetadataIDs(rt, m)
-	x := m.TextNoisy(gen.DrawNoise(rt))
+	x := m.TextNoisy(gen.DrawNoiseWithAliases(rt))
 	rejected := false
 	switch rapid.IntRange(0, 5).Draw(rt, "reject") {
 	case 0:
